@@ -2,11 +2,11 @@
    Directives used: those of ExtrOcamlBasic only (bool, option, unit, prod, list, sumbool, sumor
    as OCaml types; andb/orb/negb/fst/snd inlined).  nat, N, Z, positive stay inductive. *)
 From Coq Require Import ExtrOcamlBasic.
-From Fences Require Import Xml Base Graph GraphOps GraphCheck Format OpenApi OpenApiGraph Regex Grammar Json Normalize JsonGen.
+From Fences Require Import Xml Base Graph GraphOps GraphCheck Format OpenApi OpenApiGraph Regex Grammar Json Normalize JsonGen JsonFragB.
 Extraction Language OCaml.
 Extraction "model.ml" build apply_op items generate_paths execute executev exec V_pinned V_fixed aempty
   wfb productiveb acyclicb ins_okb outs_okb resolve optimize
   format_parameter_value decode shape_of strs
   generate_all generate_one_valid step empty_cache plan_graph picks
   parse_regex output_of gen_random_string gp_entries parse_grammar
-  normalize default_discard parse_json_schema parse_nf jsample parse_xsd xsample.
+  normalize default_discard parse_json_schema parse_nf jsample parse_xsd xsample semb fragb kvalidb any_of.
